@@ -55,91 +55,131 @@ def accepts(tests, word):
     return False
 
 
+def _parser_self(lexems):
+    return {"lexems": list(lexems), "index": 0, "roots_parsed": False, "where_parsed": False}
+
+
 def r2(ctx):
-    """root option words: parse_root_options and is_root_option_keyword accept every documented spelling"""
-    for fn in (ROOT_OPTIONS, IS_ROOT_KW):
-        tests, hir = _ladder(ctx, fn)
-        ctx.floor(len(tests), 14, "string tests in %s" % short(fn, 1), fn)
-        n = 0
-        for word in oracles.ROOT_OPTION_WORDS:
+    """root option words: parse_root_options is evaluated (finite interpreter, the parser's cursor helpers interpreted too)
+    on every documented word - alone, in upper case, followed by a number where it takes one, and after another option -
+    and the resulting RootOptions is compared field by field; is_root_option_keyword is evaluated on the same words"""
+    import interp
+    V = interp.V
+    has_git = ctx.config in ("default", "git")
+    defaults = {"min_depth": 0, "max_depth": 0, "archives": False, "symlinks": False, "gitignore": interp.NONE, "hgignore": interp.NONE,
+                "dockerignore": interp.NONE, "traversal": "Bfs", "regexp": False}
+    effect = {"archives": ("archives", True), "arc": ("archives", True), "symlinks": ("symlinks", True), "sym": ("symlinks", True),
+              "hgignore": ("hgignore", interp.some(True)), "hg": ("hgignore", interp.some(True)),
+              "dockerignore": ("dockerignore", interp.some(True)), "dock": ("dockerignore", interp.some(True)),
+              "nogitignore": ("gitignore", interp.some(False)), "nogit": ("gitignore", interp.some(False)),
+              "nohgignore": ("hgignore", interp.some(False)), "nohg": ("hgignore", interp.some(False)),
+              "nodockerignore": ("dockerignore", interp.some(False)), "nodock": ("dockerignore", interp.some(False)),
+              "bfs": ("traversal", "Bfs"), "dfs": ("traversal", "Dfs"), "regexp": ("regexp", True), "rx": ("regexp", True)}
+    if has_git:
+        effect.update({"gitignore": ("gitignore", interp.some(True)), "git": ("gitignore", interp.some(True))})
+    numeric = {"mindepth": "min_depth", "maxdepth": "max_depth", "depth": "max_depth"}
+    h = ctx.anchor_hir(ROOT_OPTIONS)
+    ps = ctx.prog.fns[ROOT_OPTIONS]["params"]
+
+    def call(node, recv, args, it, env):
+        if str(node.get("callee", "")).endswith("error_message"):
+            return ((),)
+        return None
+
+    def run(lexems):
+        selfv = _parser_self(lexems)
+        r = interp.Interp(call=call, prog=ctx.prog, max_steps=60000).run(h, {ps[0]["id"]: selfv})
+        return r, selfv["index"]
+
+    def norm(opts):
+        d = {}
+        for k, v in opts.items():
+            if isinstance(v, V) and k == "traversal":
+                v = v.name.split("::")[-1]
+            d[k] = v
+        return d
+    n = 0
+    raw = lambda w: V("Lexem::RawString", [w])
+    for word in list(effect) + list(numeric):
+        for spelled in (word, word.upper()):
+            if word in numeric:
+                lex = [raw(spelled), raw("3"), V("Lexem::Where")]
+                want = dict(defaults, **{numeric[word]: 3})
+                consumed = 2
+            else:
+                lex = [raw(spelled), V("Lexem::Where")]
+                want = dict(defaults, **{effect[word][0]: effect[word][1]})
+                consumed = 1
             n += 1
-            ok = accepts(tests, word)
+            try:
+                got, idx = run(lex)
+            except interp.Undecided as e:
+                ctx.violation("root-option/unreadable", ctx.where(ROOT_OPTIONS), "cannot evaluate parse_root_options on `%s`: %s" % (spelled, e))
+                return
+            ok = isinstance(got, V) and got.name == "Option::Some" and isinstance(got.args[0], dict) and \
+                {k: v for k, v in norm(got.args[0]).items() if k in want} == want and idx == consumed
             ctx.obligation(ok)
             if not ok:
-                ctx.violation("root-option/%s/%s" % (short(fn, 1), word), ctx.where(fn),
-                              "documented root option `%s` is not recognised by %s" % (word, short(fn, 1)))
-        ctx.covered("documented root-option words accepted by %s" % short(fn, 1), n,
-                    distinct_keys=["%s/%s" % (short(fn, 1), w) for w in oracles.ROOT_OPTION_WORDS],
-                    sample={short(fn, 1): [(k, l) for k, l, *_ in tests]})
-    # option word -> RootOptions field (assignment in the branch taken for that word)
-    hir = ctx.anchor_hir(ROOT_OPTIONS)
-    effects = {}
-    for x in walk_exprs(hir):
-        if x["k"] == "If":
-            for d in disjuncts(x["c"]):
-                d = peel(d, methods=False)
-                lit = None
-                if d["k"] == "Bin" and d["op"] == "==" and peel(d["r"])["k"] == "Lit":
-                    lit = ("eq", peel(d["r"])["v"])
-                elif d["k"] == "MCall" and d["m"] == "starts_with" and peel(d["args"][0])["k"] == "Lit":
-                    lit = ("prefix", peel(d["args"][0])["v"])
-                if lit is None:
-                    continue
-                asg = {}
-                for y in walk_exprs(x["t"]):
-                    if y["k"] == "Assign":
-                        l = peel(y["l"], methods=False)
-                        if l["k"] == "Path" and l.get("rk") == "Local":
-                            asg[l["name"]] = render(peel_result(y["r"]))
-                effects[lit] = asg
-    want = {
-        ("eq", "mindepth"): ("mode", "MinDepth"), ("eq", "maxdepth"): ("mode", "Depth"), ("eq", "depth"): ("mode", "Depth"),
-        ("prefix", "arc"): ("archives", "true"), ("prefix", "sym"): ("symlinks", "true"),
-        ("prefix", "hg"): ("hgignore", "true"), ("prefix", "dock"): ("dockerignore", "true"),
-        ("prefix", "nogit"): ("gitignore", "false"), ("prefix", "nohg"): ("hgignore", "false"),
-        ("prefix", "nodock"): ("dockerignore", "false"), ("eq", "bfs"): ("traversal", "Bfs"),
-        ("eq", "dfs"): ("traversal", "Dfs"), ("prefix", "regex"): ("regexp", "true"),
-    }
-    if ctx.config in ("default", "git"):
-        want[("prefix", "git")] = ("gitignore", "true")
-    n = 0
-    for lit, (var, val) in want.items():
+                if not (isinstance(got, V) and got.name == "Option::Some" and isinstance(got.args[0], dict)):
+                    ctx.violation("root-option/parse_root_options/%s" % word, ctx.where(ROOT_OPTIONS), "documented root option `%s` is not recognised by parse_root_options (result %r)" % (spelled, got))
+                else:
+                    diff = {k: (norm(got.args[0]).get(k), v) for k, v in want.items() if norm(got.args[0]).get(k) != v}
+                    if diff:
+                        k0 = sorted(diff)[0]
+                        ctx.violation("root-option-effect/%s" % word, ctx.where(ROOT_OPTIONS), "root option `%s` sets %s to %s, expected %s" % (spelled, k0, diff[k0][0], diff[k0][1]))
+                    else:
+                        ctx.violation("root-option-effect/%s/cursor" % word, ctx.where(ROOT_OPTIONS), "after root option `%s` the parser stands %d lexems further, expected %d" % (spelled, idx, consumed))
+    # two options in a row keep both effects; a non-option word ends the list and is handed back
+    try:
+        got, idx = run([raw("depth"), raw("2"), raw("sym"), raw("dfs"), raw("name")])
         n += 1
-        got = effects.get(lit, {}).get(var)
-        ok = got is not None and got.split("::")[-1] == val
+        ok = isinstance(got, V) and got.name == "Option::Some" and isinstance(got.args[0], dict) and \
+            {k: v for k, v in norm(got.args[0]).items() if k in defaults} == dict(defaults, max_depth=2, symlinks=True, traversal="Dfs") and idx == 4
         ctx.obligation(ok)
         if not ok:
-            ctx.violation("root-option-effect/%s" % lit[1], ctx.where(ROOT_OPTIONS),
-                          "root option `%s` sets %s to %s, expected %s" % (lit[1], var, got, val))
-    ctx.covered("option word -> option field effects in parse_root_options", n, distinct_keys=[l[1] for l in want],
-                sample={"%s:%s" % k: v for k, v in list(effects.items())[:6]})
-    # the numeric argument lands in the matching field
-    sets = {}
-    for m in find_matches(hir):
-        for a in match_arms(m):
-            for k in a["keys"]:
-                kn = key_name(k).split("::")[-1]
-                if kn in ("MinDepth", "Depth"):
-                    for y in walk_exprs(a["body"]):
-                        if y["k"] == "Assign" and peel(y["l"], methods=False).get("name") in ("min_depth", "max_depth"):
-                            sets[kn] = peel(y["l"], methods=False)["name"]
-    ok = sets == {"MinDepth": "min_depth", "Depth": "max_depth"}
-    ctx.obligation(ok)
-    ctx.covered("depth argument destinations", 2, distinct_keys=sorted(sets))
-    if not ok:
-        ctx.violation("root-option-effect/depth-argument", ctx.where(ROOT_OPTIONS),
-                      "the number after mindepth/maxdepth is stored as %s" % sets)
-    # struct literal pairs each field with the local of the same name
-    for x in walk_exprs(hir):
-        if x["k"] == "Struct" and short(x.get("res"), 1) == "RootOptions":
-            for f in x["fields"]:
-                e = peel(f["e"], methods=False)
-                ok = e["k"] == "Path" and e.get("name") == f["name"]
-                ctx.obligation(ok)
-                if not ok:
-                    ctx.violation("root-option-effect/field/%s" % f["name"], ctx.where(ROOT_OPTIONS, x),
-                                  "RootOptions.%s is initialised from `%s`" % (f["name"], render(e)))
-            ctx.covered("RootOptions literal fields", len(x["fields"]), distinct_keys=[f["name"] for f in x["fields"]])
+            ctx.violation("root-option-effect/sequence", ctx.where(ROOT_OPTIONS), "`depth 2 sym dfs name` yields %r at lexem %d; expected max_depth 2, symlinks, dfs at lexem 4" % (got, idx))
+        got, idx = run([raw("name"), V("Lexem::Where")])
+        n += 1
+        ok = got == interp.NONE and idx == 0
+        ctx.obligation(ok)
+        if not ok:
+            ctx.violation("root-option-effect/none", ctx.where(ROOT_OPTIONS), "a word that is no root option must leave the options unset and be handed back; got %r at lexem %d" % (got, idx))
+        got, idx = run([V("Lexem::Operator", ["rx"]), V("Lexem::Where")])
+        n += 1
+        ok = isinstance(got, V) and got.name == "Option::Some" and norm(got.args[0]).get("regexp") is True
+        ctx.obligation(ok)
+        if not ok:
+            ctx.violation("root-option-effect/rx-operator", ctx.where(ROOT_OPTIONS), "`rx` lexed as an operator word must still set the regexp root option")
+    except interp.Undecided as e:
+        ctx.violation("root-option/unreadable", ctx.where(ROOT_OPTIONS), "cannot evaluate parse_root_options: %s" % e)
+    # is_root_option_keyword: the lexer's view of the same vocabulary
+    kh = ctx.anchor_hir(IS_ROOT_KW)
+    kp = ctx.prog.fns[IS_ROOT_KW]["params"]
+    words = list(oracles.ROOT_OPTION_WORDS)
+    for word in words + [w.upper() for w in words[:4]]:
+        if word.lower() in ("gitignore", "git") and not has_git:
+            continue
+        n += 1
+        try:
+            got = interp.Interp(prog=ctx.prog).run(kh, {kp[0]["id"]: word})
+        except interp.Undecided as e:
+            ctx.violation("root-option/unreadable", ctx.where(IS_ROOT_KW), "cannot evaluate is_root_option_keyword on `%s`: %s" % (word, e))
+            break
+        ctx.obligation(got is True)
+        if got is not True:
+            ctx.violation("root-option/is_root_option_keyword/%s" % word.lower(), ctx.where(IS_ROOT_KW), "documented root option `%s` is not recognised by is_root_option_keyword" % word)
+    for word in ("name", "where", "size", "from"):
+        n += 1
+        try:
+            got = interp.Interp(prog=ctx.prog).run(kh, {kp[0]["id"]: word})
+        except interp.Undecided as e:
+            ctx.violation("root-option/unreadable", ctx.where(IS_ROOT_KW), "cannot evaluate is_root_option_keyword on `%s`: %s" % (word, e))
+            break
+        ctx.obligation(got is False)
+        if got is not False:
+            ctx.violation("root-option/is_root_option_keyword/claims-%s" % word, ctx.where(IS_ROOT_KW), "`%s` is taken for a root option word" % word)
+    ctx.covered("root-option vocabulary: parse_root_options and is_root_option_keyword evaluated on every documented word (two letter cases, numeric arguments, sequences)",
+                n, distinct_keys=list(effect) + list(numeric), exhaustive=True)
 
 
 def lexer_table(ctx):
